@@ -1,0 +1,26 @@
+//go:build verif
+
+package iterator
+
+// This file is only compiled with the "verif" build tag. It lets external verification harnesses
+// look through the wrappers that other packages put around their iterators. Read-only.
+
+// VerifUnwrapWhile returns the iterator wrapped by a While iterator and whether the While iterator
+// has already finished. ok is false if iter was not returned by While.
+func VerifUnwrapWhile[T any](iter Iterator[T]) (inner Iterator[T], done bool, ok bool) {
+	w, ok := iter.(*whileIterator[T])
+	if !ok {
+		return nil, false, false
+	}
+	return w.inner, w.done, true
+}
+
+// VerifUnwrapMap returns the iterator wrapped by a Map iterator. ok is false if iter was not
+// returned by Map[T, U].
+func VerifUnwrapMap[T any, U any](iter Iterator[U]) (inner Iterator[T], ok bool) {
+	m, ok := iter.(*mapIterator[T, U])
+	if !ok {
+		return nil, false
+	}
+	return m.inner, true
+}
